@@ -4,7 +4,7 @@ set -u
 id="$1"; patch="$2"; tier="${3:-quick}"
 S=/tmp/seedrepo-$$
 rm -rf $S; cp -r /repo $S
-( cd $S && git apply "$patch" ) || { echo "PATCH DOES NOT APPLY"; rm -rf $S; exit 3; }
+( cd $S && { git apply "$patch" 2>/dev/null || patch -p1 -s --no-backup-if-mismatch -F3 < "$patch"; } ) || { echo "PATCH DOES NOT APPLY"; rm -rf $S; exit 3; }
 cd /verif
 VERIF_REPO=$S VERIF_OWNER="seed$id" ./check "$id" "$tier" > /tmp/seedout-$$.txt 2>&1
 rc=$?
